@@ -36,3 +36,11 @@ lemma("psum_pos",
       requires=["0 <= j", "j < m", "m <= len(v)", "forall(0, len(v), lambda k: v[k] >= 0)", "v[j] > 0"],
       ensures=[("pos", "psum(v, m) > 0")],
       induct="m", uses=("psum_nonneg",), props=("C03", "C14", "C16", "C17"))
+
+
+# a vector whose neighbours are ordered is ordered (justifies reading groupby on a neighbour-wise sorted key as "runs")
+lemma("adjacent_monotone",
+      vars=dict(f=VecT(Int), a=Int, b=Int),
+      requires=["0 <= a", "a <= b", "b < len(f)", "forall(0, len(f), lambda k: implies(k + 1 < len(f), f[k] <= f[k + 1]))"],
+      ensures=[("monotone", "f[a] <= f[b]")],
+      induct="b", props=("C14",))
